@@ -27,11 +27,17 @@ literals included, nothing is assumed away).  Here:
 * C4 `scopes_of_pyLayout`, `scan_of_pyLayout` - every function gets its suite; the whole of
   `scan_file`: exactly the functions of the layout, each once, in source order, each with the
   expected measurement;
-* C5 examples evaluated in the kernel, and two observations outside the canonical fragment
-  (`shallow_header_line`, `line_beginning_with_backslash`).
+* C5 examples evaluated in the kernel, and two FINDINGS: legal Python outside the canonical fragment
+  that the code mis-measures (`shallow_header_line`, `line_beginning_with_backslash`; both
+  reproduce on the real code).
 
-All statements are proved at full strength (no extra hypothesis had to be added): within the
-fragment described by `PyLayout` the model computes what C01 expects.
+Within the fragment described by `PyLayout` the model computes what C01 expects.  Two remarks on
+honesty: (1) `scan_of_pyLayout(_python)` is CONDITIONAL on header discovery (hypothesis `hh`, a
+statement about an intermediate result); it is discharged by conditions on the token list in
+`C01pyfull.scan_of_pyLayout_syn` and unconditionally for indentation trees in
+`C01pyfull.scan_of_pytree`.  (2) The notion of logical line in `PyLayout` (`startsLine`) is the
+CODE's; it is Python's (`startsLogical`) iff no logical line begins with a continuation token
+(`startsLine_eq_startsLogical`).
 -/
 namespace CL.C01py
 
@@ -62,6 +68,54 @@ theorem startsLine_physical {code : List Tok} (hc : NoContinuation code) {i : Na
   rw [startsLine_succ (List.getElem?_eq_getElem h0) (List.getElem?_eq_getElem hi), hp,
     lineNo_eq hi, lineNo_eq h0]
   simp
+
+/-- **The code's logical lines are Python's logical lines, unless a logical line begins with a
+continuation token.**  `startsLine` (what `_get_token_lines` computes: the first token of a line
+never continues it) and `startsLogical` (Python: every token ending in backslash-newline, every
+String token ending in a newline continues the line) agree at every token if no token that begins a
+logical line is itself a continuation token.  The hypothesis excludes exactly files like
+`line_beginning_with_backslash`. -/
+theorem startsLine_eq_startsLogical {code : List Tok}
+    (h : ∀ i t, startsLogical code i = true → code[i]? = some t → t.continuesLine = false) :
+    ∀ i, startsLine code i = startsLogical code i := by
+  intro i
+  induction i with
+  | zero => rfl
+  | succ i ih =>
+    rw [startsLine, startsLogical]
+    cases hp : code[i]? with
+    | none => rfl
+    | some p =>
+      cases ht : code[i + 1]? with
+      | none => rfl
+      | some t =>
+        simp only
+        cases hc : p.continuesLine with
+        | false => simp
+        | true =>
+          have hl : startsLogical code i = false := by
+            cases hl : startsLogical code i with
+            | false => rfl
+            | true => rw [h i p hl hp] at hc; cases hc
+          rw [ih, hl]
+          simp
+
+/-- the hypothesis of `startsLine_eq_startsLogical` holds for the example file with backslash
+continuation and a string literal over two lines (`C01PyEx`), and fails for
+`line_beginning_with_backslash` (`C01PyBs`: token 5 begins a logical line and is a continuation
+token; there the two notions differ at token 6) -/
+example : (∀ i t, startsLogical C01PyEx.code i = true → C01PyEx.code[i]? = some t →
+      t.continuesLine = false) ∧
+    startsLogical C01PyBs.code 5 = true ∧ C01PyBs.code[5]?.map (·.continuesLine) = some true ∧
+    startsLine C01PyBs.code 6 = true ∧ startsLogical C01PyBs.code 6 = false := by
+  refine ⟨?_, by decide +kernel, by decide +kernel, by decide +kernel, by decide +kernel⟩
+  have hb : ∀ i, i < 65 → startsLogical C01PyEx.code i = true →
+      (C01PyEx.code[i]?.any (·.continuesLine)) = false := by decide +kernel
+  intro i t h1 h2
+  have hlen : C01PyEx.code.length = 65 := by decide +kernel
+  have := hb i (by have := (List.getElem?_eq_some_iff.1 h2).1; omega) h1
+  rw [h2] at this
+  simpa using this
 
 /-- **`_get_line_indentation`** returns the column of the first token of the logical line on
 which the token stands (for `async def f` that is the column of `async`). -/
@@ -144,7 +198,10 @@ theorem scopes_of_pyLayout {code : List Tok} {fns : List Fn} (L : PyLayout code 
   cases hb
   exact buildScopes0_scopeLayout L.scopeLayout (List.Perm.refl _)
 
-/-- **C01 for Python, the whole of `scan_file`.**  Let `code` be the code tokens of a file.  If
+/-- **C01 for Python, the whole of `scan_file`** (CONDITIONAL on header discovery: the hypothesis
+`hh` speaks about what `extract_headers` returns; it is replaced by conditions on the token list in
+`C01pyfull.scan_of_pyLayout_syn` and removed for indentation trees in `C01pyfull.scan_of_pytree`).
+Let `code` be the code tokens of a file.  If
 the header extraction of Python finds the headers of the functions `fns` (in source order),
 the tokens and the functions form a canonical Python layout (`PyLayout`) and no function is
 marked with a suppression comment, then `scan_file` succeeds and reports exactly the functions
@@ -278,9 +335,15 @@ example : ∃ ms, scanFile Gen.python C01PyPlain.code = .ok ms ∧
   scan_of_pyLayout_python C01PyPlain.code_all C01PyPlain.headers C01PyPlain.layout
     C01PyPlain.unmarked
 
-/-! ## observations outside the canonical fragment -/
+/-! ## findings: legal Python outside the canonical fragment, mis-measured by the code
 
-/-- **Observation: a continuation line of a nested header that is not indented deeper than the
+Both files are legal Python, both results reproduce on the real code (`/repo`), and in both the
+report differs from what C01 expects.  They are outside `PyLayout` (and outside Appendix A of the
+design: "every physical line indented deeper than the header line"; "a logical line does not begin
+with backslash-newline").  They are recorded here as findings about the code; the specification is
+not claimed to cover them. -/
+
+/-- **Finding: a continuation line of a nested header that is not indented deeper than the
 ENCLOSING function.**  In
 ```
 def g():
@@ -307,7 +370,7 @@ theorem shallow_header_line :
       = [some ⟨[103], 1, 1, 6, 13, 3⟩, some ⟨[102], 2, 5, 4, 13, 3⟩] :=
   ⟨by decide +kernel, C01PyHdr.headers, C01PyHdr.scanPy, C01PyHdr.expectedEx⟩
 
-/-- **Observation: a logical line that begins with a backslash-newline.**  In
+/-- **Finding: a logical line that begins with a backslash-newline.**  In
 ```
 def f():
     \
@@ -319,7 +382,8 @@ indentation) the backslash-newline token is the FIRST token of its line, and
 `_get_token_lines` never treats the first token of a line as a continuation: `x` (token 6,
 column 1) begins a new line, which ends the suite.  The analysis reports `f` as lines 1-3 with
 length 2 where lines 1-4 with length 4 are expected.  `startsLine` describes what the code
-does, so this file is simply not a `PyLayout`. -/
+does (Python's notion `startsLogical` says token 6 does NOT begin a line), so this file is not a
+`PyLayout`; the hypothesis of `startsLine_eq_startsLogical` is what excludes it. -/
 theorem line_beginning_with_backslash :
     C01PyBs.code[5]?.map (·.continuesLine) = some true ∧ startsLine C01PyBs.code 5 = true ∧
     startsLine C01PyBs.code 6 = true ∧ ¬ PyLayout C01PyBs.code C01PyBs.fns ∧
@@ -327,5 +391,30 @@ theorem line_beginning_with_backslash :
     C01PyBs.fns.map (expected C01PyBs.code C01PyBs.fns) = [some ⟨[102], 1, 1, 4, 13, 4⟩] :=
   ⟨by decide +kernel, by decide +kernel, by decide +kernel, by decide +kernel, C01PyBs.scanPy,
    C01PyBs.expectedEx⟩
+
+/-- the tokens of
+```
+def f(): return 1
+def g():
+    return 2
+```
+-/
+def oneLineDef : List Tok :=
+  [Ex.kwT [100, 101, 102] 1 1, Ex.nmT [102] 1 5, Ex.puT [40] 1 6, Ex.puT [41] 1 7, Ex.puT [58] 1 8,
+   Ex.kwT [114, 101, 116, 117, 114, 110] 1 10, ⟨0, 0, [49], 1, 17⟩,
+   Ex.kwT [100, 101, 102] 2 1, Ex.nmT [103] 2 5, Ex.puT [40] 2 6, Ex.puT [41] 2 7, Ex.puT [58] 2 8,
+   Ex.kwT [114, 101, 116, 117, 114, 110] 3 5, ⟨0, 0, [50], 3, 12⟩]
+
+/-- **Outside the fragment: a one-line `def` is not reported at all.**  `def f(): return 1` (legal
+Python; Appendix A of the design: "one-line `def`s are outside the fragment") has its body on the
+header line; the header is found (`extract_headers` returns `f` and `g`), but no indented suite
+follows it, `extract_blocks` finds no block for it, and `scan_file` reports only `g`.  The real
+code does the same.  `PyLayout` excludes the file: `suite_start` demands that the suite begins on
+a line below the header. -/
+theorem one_line_def_not_reported :
+    (extractHeaders Gen.python oneLineDef).map (fun hs => hs.map (·.name.val)) = .ok [[102], [103]] ∧
+    scanFile Gen.python oneLineDef = .ok [⟨[103], 2, 1, 3, 13, 2⟩] := by
+  refine ⟨?_, scanFile_eval (by decide +kernel)⟩
+  decide +kernel
 
 end CL.C01py
